@@ -291,6 +291,9 @@ type Evidence struct {
 func WriteEvidence(e Evidence) error {
 	dir := filepath.Join(VerifDir, "evidence")
 	os.MkdirAll(dir, 0o755)
+	if e.Assumptions == nil {
+		e.Assumptions = []string{}
+	}
 	b, err := json.MarshalIndent(e, "", " ")
 	if err != nil {
 		return err
